@@ -176,7 +176,18 @@ def check_case(case, res=None):
                     if res is not None:
                         res.labels[f"obj:ctor_{type(e).__name__}"] += 1
                     continue
+                try:
+                    before = _snapshot(an, c["body"], inst)
+                except Exception as e:  # noqa
+                    raise Violation("public_values_readable", cj, "values", f"{type(e).__name__}: {e}")
                 b0 = _serialize(s, cls, inst, it["mode"])
+                try:
+                    after = _snapshot(an, c["body"], inst)
+                except Exception as e:  # noqa
+                    after = f"{type(e).__name__}: {e}"
+                if after != before:
+                    raise Violation("instance_unchanged_by_serialize", cj, repr(before)[:200], repr(after)[:200],
+                                    "serialising an instance changed what its public properties return")
                 bg = _serialize(s, cls, inst_gen, it["mode"])
                 if b0 != bg:
                     raise Violation("generator_argument_snapshot", cj, b0, bg)
